@@ -60,6 +60,30 @@ func mk(kind int) *queue.DecodedSSVMessage {
 	panic("kind")
 }
 
+var docClassNames = []string{"duty start", "timeout", "current height/slot", "other height/slot"}
+
+// docClass: the class of a message in the documented priority order (C14: "duty start, then
+// timeout, then current-height consensus traffic before other heights"), computed from the
+// message alone.
+func docClass(m *queue.DecodedSSVMessage) int {
+	switch b := m.Body.(type) {
+	case *ssvtypes.EventMsg:
+		if b.Type == ssvtypes.ExecuteDuty {
+			return 0
+		}
+		return 1
+	case *specqbft.SignedMessage:
+		if b.Message.Height == curHeight {
+			return 2
+		}
+	case *spectypes.SignedPartialSignatureMessage:
+		if b.Message.Slot == curSlot {
+			return 2
+		}
+	}
+	return 3
+}
+
 type filterDef struct {
 	name string
 	f    queue.Filter
@@ -327,6 +351,11 @@ func (e *explorer) apply(s state, o op) result {
 				if x != m && prios[o.p].Prior(x, m) && !prios[o.p].Prior(m, x) {
 					res.viol, res.what = "pop-not-maximal", fmt.Sprintf("returned %s although admissible %s is strictly prior", kindNames[l.kind[m]], kindNames[l.kind[x]])
 				}
+				// the documented order itself, judged without the package's comparison functions:
+				// duty start, then timeout, then traffic of the current height / slot, then the rest
+				if x != m && docClass(x) < docClass(m) {
+					res.viol, res.what = "pop-not-maximal-in-documented-order", fmt.Sprintf("returned %s (%s) although admissible %s (%s) is queued", kindNames[l.kind[m]], docClassNames[docClass(m)], kindNames[l.kind[x]], docClassNames[docClass(x)])
+				}
 			}
 		}
 		expectRemoved = m
@@ -425,7 +454,7 @@ func main() {
 		return
 	}
 	type cfg struct{ capacity, nk, depth int }
-	cfgs := []cfg{{1, 8, 6}, {3, 8, 6}}
+	cfgs := []cfg{{1, 8, 6}, {3, 8, 6}, {3, 10, 5}} // (the last one: all message kinds, incl. partial signatures and earlier-round traffic of the current height)
 	if r.Thorough() {
 		cfgs = []cfg{{1, 10, 7}, {3, 10, 7}, {2, 8, 8}}
 	}
